@@ -68,6 +68,8 @@ def discharge_many(res, specs, timeout=120):
         else:
             if q.result == "sat":
                 o.status, o.detail = "pass", "witness exists: " + detail
+                if sp.get("on_witness") and q.model is not None:
+                    sp["on_witness"](o, q.model)
             else:
                 o.status, o.detail = "error", "vacuity witness unsatisfiable (scenario over-constrained): " + detail
         res.obligations.append(o)
